@@ -23,10 +23,11 @@ RULE = ("every ordered pair (old, new) of sequences over {0,1,2} with length <= 
 ASSUMPTIONS = ["element values are small ints; hand-written text v -> {0:'0+0', 1:'1+0', 2:'1+1'}",
                "the direct align() probe is skipped (with a note) if inline_snapshot._align no longer exists"]
 BATCH = 60
-HAND = {0: "0+0", 1: "1+0", 2: "1+1"}
+HAND = {0: "0+0", 1: "1+0", 2: "1+1", 9: "8+1"}
 HSET = set(HAND.values())
 KEYS = ("a", "b", "c")
-DC3 = "from dataclasses import dataclass\n@dataclass\nclass DC3:\n    a: int = 9\n    b: int = 9\n    c: int = 9\n\n"
+DC3 = ("from dataclasses import dataclass, field\nfrom collections import namedtuple\n@dataclass\nclass DC3:\n    a: int = 9\n    b: int = 9\n    c: int = 9\n\n"
+       "NT3 = namedtuple('NT3', 'a b c', defaults=[9, 9, 9])\n\n@dataclass\nclass DCR:\n    a: int = 9\n    b: int = field(default=9, repr=False, compare=False)\n    c: int = 9\n\n")
 
 
 def bounds(tier):
@@ -54,6 +55,14 @@ def _cases(tier):
     S3 = _seqs(3 if tier == "quick" else 4)
     for sh in ("tuple", "inlist", "indict"):
         cases += [{"sh": sh, "old": o, "new": n} for o in S3 for n in S3]
+    MD = []
+    for combo in itertools.product((None, 0, 9), repeat=3):
+        MD.append({k: v for k, v in zip(KEYS, combo) if v is not None})
+    for sh in ("kwcall", "ntcall", "dcrcall"):
+        for o in MD:
+            for n in MD:
+                if 9 in o.values() or 9 in n.values():
+                    cases.append({"sh": sh, "old": o, "new": n})
     M = _maps()
     for sh in ("dict", "kwcall"):
         for o in M:
@@ -93,8 +102,8 @@ def _old_text(c):
         return "{'k': %s, 'z': 7}" % _seq_text(c["old"], "list")
     if sh == "dict":
         return "{" + ", ".join("%r: %s" % (k, HAND[v]) for k, v in c["old"].items()) + "}"
-    if sh == "kwcall":
-        return "DC3(" + ", ".join("%s=%s" % (k, HAND[v]) for k, v in c["old"].items()) + ")"
+    if sh in ("kwcall", "ntcall", "dcrcall"):
+        return {"kwcall": "DC3", "ntcall": "NT3", "dcrcall": "DCR"}[sh] + "(" + ", ".join("%s=%s" % (k, HAND[v]) for k, v in c["old"].items()) + ")"
 
 
 def _new_expr(c):
@@ -113,7 +122,7 @@ def _new_expr(c):
         items = items[::-1]
     if sh == "dict":
         return "{" + ", ".join("%r: %r" % kv for kv in items) + "}"
-    return "DC3(" + ", ".join("%s=%r" % kv for kv in items) + ")"
+    return {"kwcall": "DC3", "ntcall": "NT3", "dcrcall": "DCR"}.get(sh, "DC3") + "(" + ", ".join("%s=%r" % kv for kv in items) + ")"
 
 
 def _site(i, c):
@@ -141,7 +150,7 @@ def _analyze(c, i, before, after, rx, ctx):
         node = loc.tree.body[0].value
     except Exception as e:  # noqa
         return ("unparsable-argument", "%r: %s" % (text[:200], e))
-    if sh in ("dict", "kwcall"):
+    if sh in ("dict", "kwcall", "ntcall", "dcrcall"):
         if sh == "dict":
             if not isinstance(node, ast.Dict):
                 return ("shape-lost", text[:200])
@@ -152,7 +161,10 @@ def _analyze(c, i, before, after, rx, ctx):
             pairs = [(k.arg, loc.seg(k.value)) for k in node.keywords]
         got = dict(pairs)
         for k, v in c["old"].items():
-            if k in c["new"] and c["new"][k] == v:
+            newv = c["new"].get(k, 9 if sh != "dict" else None)
+            if sh == "dcrcall" and k == "b":
+                continue  # a repr=False field never round-trips through the generated code
+            if newv == v:
                 if got.get(k) != HAND[v]:
                     return ("equal-entry-rewritten", "key %r had %s, now %r in %s" % (k, HAND[v], got.get(k), text[:200]))
         return None
@@ -180,7 +192,7 @@ def _analyze(c, i, before, after, rx, ctx):
 
 
 def _judge(cases):
-    hdr = DC3 if any(c["sh"] == "kwcall" for c in cases) else ""
+    hdr = DC3 if any(c["sh"] in ("kwcall", "ntcall", "dcrcall") for c in cases) else ""
     return batch.one_file(cases, _site, lambda c: [], ["fix"], _analyze, header=hdr)
 
 
@@ -249,7 +261,7 @@ def _plugin_case(c):
     from ..drivers.inline import reexec
 
     case = {"sh": c["sh"], "old": c["old"], "new": c["new"]}
-    src = (DC3 if c["sh"] == "kwcall" else "") + "from inline_snapshot import snapshot\n\n\n" + _site(0, case)
+    src = (DC3 if c["sh"] in ("kwcall", "ntcall", "dcrcall") else "") + "from inline_snapshot import snapshot\n\n\n" + _site(0, case)
     d = plugin.mk_project({"test_something.py": src, "pyproject.toml": ""})
     try:
         stdin = None if c["ans"] is None else ("\n".join(c["ans"]) + "\n").encode() + b"n\n" * 4
@@ -307,7 +319,7 @@ def run_task(task):
             if isinstance(c["old"], list):
                 if lcs(c["old"], c["new"]):
                     keep.append(repr((c["sh"], c["old"], c["new"], c.get("rev"))))
-            elif any(k in c["new"] and c["new"][k] == v for k, v in c["old"].items()):
+            elif any(c["new"].get(k, 9) == v for k, v in c["old"].items()):
                 keep.append(repr((c["sh"], c["old"], c["new"], c.get("rev"))))
     r["nontrivial"] = [k for k in r["nontrivial"] if k in set(keep)]
     return r
